@@ -223,7 +223,7 @@ fn main() {
         "signature_space": {"prefix": "0..=18 u32 parameters", "suffix_alphabet": suffix_alphabet().iter().map(|t| t.to_string()).collect::<Vec<_>>(),
                             "suffix_length": "<= 2 for all 16 triples; thorough: = 3 additionally for the used and complete triples",
                             "result_alphabet": result_alphabet().iter().map(|t| t.as_ref().map(|t| t.to_string()).unwrap_or("none".into())).collect::<Vec<_>>()},
-        "limits_crossed": "flat parameter counts 0..=18+ cross 16 (sync, async lift) and 4 (async lower) from both sides; results with 0, 1, 2 and 17 flat values cross 1 (sync) and 16 (task.return)",
+        "limits_crossed": "flat parameter counts 0..=18+ cross 16 (sync, async lift) and 4 (async lower) from both sides; results with 0, 1, 2, 3, 4, 5, 16 and 17 flat values cross 1 (sync results), 4 (must NOT matter for task.return) and 16 (task.return) from both sides",
         "triples": 16,
         "recordings": tot["recordings"],
         "value_assignments_per_run": ASSIGNMENTS,
